@@ -310,8 +310,12 @@ func (p *untypedParamBinder) setFieldValue(target reflect.Value, defaultValue in
 	}
 
 	if tpe == "byte" {
+		// only a []byte-like target can hold the decoded value (a formats registry that knows "byte" provides one)
+		if target.Kind() != reflect.Slice || target.Type().Elem().Kind() != reflect.Uint8 {
+			return errors.InvalidType(p.Name, p.parameter.In, tpe, data)
+		}
 		if data == "" {
-			if target.CanSet() {
+			if target.CanSet() && defVal.Kind() == reflect.Slice && defVal.Type().Elem().Kind() == reflect.Uint8 {
 				target.SetBytes(defVal.Bytes())
 			}
 			return nil
